@@ -251,7 +251,9 @@ func runNative(cases []*replayCase, sh *Shared, pathMap map[string]string, tmp s
 		os.WriteFile(ovFile, ovData, 0o644)
 		cmd := exec.Command("go", "test", "-vet=off", "-count=1", "-timeout", "600s", "-run", "^TestVerifReplay$", "-overlay", ovFile, ".")
 		cmd.Dir = filepath.Join(repoRoot, pd)
-		cmd.Env = append(os.Environ(), "VERIF_REPLAY_DIR="+dir, "GOFLAGS=-mod=mod", "GOPROXY=off", "GOSUMDB=off", "GOTOOLCHAIN=local")
+		// scratch files of the replayed code (real databases of the storage back ends) are removed with tmp
+		os.MkdirAll(filepath.Join(dir, "tmp"), 0o755)
+		cmd.Env = append(os.Environ(), "VERIF_REPLAY_DIR="+dir, "TMPDIR="+filepath.Join(dir, "tmp"), "GOFLAGS=-mod=mod", "GOPROXY=off", "GOSUMDB=off", "GOTOOLCHAIN=local")
 		out, err := cmd.CombinedOutput()
 		if err != nil {
 			return fmt.Errorf("native replay build/run failed in %s: %v\n%s", pd, err, tail(string(out), 3000))
@@ -510,7 +512,10 @@ func runCheck(id, tier string) int {
 					repro = (v.Kind == "assert" && o.Failed == v.Label) || (v.Kind == "panic" && o.Panic != "")
 				}
 			}
-			if !repro {
+			if !repro && strings.Contains(o.Desync, "engine-only") {
+				// the counterexample goes through a stub with no native counterpart (abstract storage crash)
+				status = "not natively replayable: depends on the abstract storage stub (" + o.Desync + ")"
+			} else if !repro {
 				status = "not-reproduced"
 				if hasEngineOnly(v.Script, "sched", "preempt", "clock") && !hasEngineOnly(v.Script, "nothing") && v.Kind == "assert" && (hasEngineOnly(v.Script, "sched", "preempt")) {
 					status = "schedule-dependent (not natively replayable without yield hooks)"
@@ -746,12 +751,14 @@ func runDev(args []string) int {
 		n, _ := strconv.Atoi(p[1])
 		params[p[0]] = n
 	}
-	overlay, _, err := buildOverlay([]string{pd}, "")
+	pds := strings.Split(pd, ",") // harness package first, then further packages that need their overlay
+	pd = pds[0]
+	overlay, _, err := buildOverlay(pds, "")
 	if err != nil {
 		fmt.Fprintln(os.Stderr, err)
 		return 2
 	}
-	sh, err := loadProgram(repoRoot, []string{pd}, overlay)
+	sh, err := loadProgram(repoRoot, pds, overlay)
 	if err != nil {
 		fmt.Fprintln(os.Stderr, err)
 		return 2
